@@ -80,6 +80,12 @@ Next ==
 
 Spec == Init /\ [][Next]_vars
 
+\* extra coverage beyond the listed properties (reported as notes, never as violations)
+ExtraOK(e) == ("score" \in DOMAIN e) =>
+   LET h == [ver |-> e.ver, f |-> e.fields] IN
+   /\ e.score = <<Score(h, 32688), Score(h, 65456), Score(h, 4259760), Score(h, 0)>>
+   /\ e.romsz = SizeBytes(e.fields["ROMSize"]) /\ e.ramsz = SizeBytes(e.fields["RAMSize"])
+Notes == l = Len(Trace) + 1 => \A i \in 1..Len(Trace) : ExtraOK(Trace[i]) \/ PrintT(<<"NOTE", "score/size helper differs from Rom.tla", i>>)
 Report == l = Len(Trace) + 1 =>
             \A i \in bad : PrintT(<<"BAD", ToJson([line |-> i, ev |-> Trace[i]])>>)
 Consumed == TLCGet("stats").diameter - 1 = Len(Trace)
